@@ -433,3 +433,21 @@ def walk_no_nested(node: ast.AST):
         first = False
         yield n
         todo.extend(ast.iter_child_nodes(n))
+
+
+
+_UFUNC_OPS = {"numpy.divide": ast.Div, "numpy.true_divide": ast.Div, "numpy.multiply": ast.Mult, "numpy.add": ast.Add, "numpy.subtract": ast.Sub,
+              "numpy.power": ast.Pow, "numpy.float_power": ast.Pow, "numpy.floor_divide": ast.FloorDiv, "numpy.mod": ast.Mod, "numpy.remainder": ast.Mod}
+
+
+def ufunc_as_operator(name: Optional[str], call: ast.Call) -> Optional[ast.expr]:
+    """`np.divide(a, b)` is `a / b`, `np.multiply(a, b)` is `a * b`, ... `np.negative(a)` is `-a`: the operator node the call
+    stands for, for every abstract interpreter to evaluate with its operator rules (one reading of arithmetic, whatever the
+    spelling).  Only the plain two-argument form: `out=` / `where=` / `dtype=` change what the call does."""
+    if call.keywords or any(isinstance(a, ast.Starred) for a in call.args):
+        return None
+    if name in _UFUNC_OPS and len(call.args) == 2:
+        return ast.copy_location(ast.BinOp(left=call.args[0], op=_UFUNC_OPS[name](), right=call.args[1]), call)
+    if name == "numpy.negative" and len(call.args) == 1:
+        return ast.copy_location(ast.UnaryOp(op=ast.USub(), operand=call.args[0]), call)
+    return None
